@@ -3,6 +3,7 @@ package main
 import (
 	"fmt"
 	"math"
+	"strconv"
 	"strings"
 
 	"github.com/paulmach/orb"
@@ -30,6 +31,70 @@ func rdTile(r *tokReader) maptile.Tile {
 
 func sb4(b orb.Bound) string {
 	return fb(b.Min[0]) + " " + fb(b.Min[1]) + " " + fb(b.Max[0]) + " " + fb(b.Max[1])
+}
+
+// --- libm recorder -------------------------------------------------------------------------------
+//
+// The outcomes of the geography ops (`at`, `nbr`, `bnd`) end with the table "T n (fn arg value)*" of
+// the libm calls the Go code makes on this input (s = math.Sin, l = math.Log, e = math.Exp,
+// a = math.Atan).  The table is recorded by the mirrors below (the expressions of maptile.Fraction and
+// mercator.ToGeo with the libm calls routed through the recorder); the values are Go's own.  The Lean
+// driver redoes ALL the arithmetic with the model Orb.TileGeo on top of these values and must
+// reproduce the IMPLEMENTATION's outputs (not the mirror's) bit for bit; an argument the table does not
+// contain is reported by the driver as a diff.
+
+type c13Rec struct {
+	sb   strings.Builder
+	n    int
+	seen map[string]bool
+}
+
+func newC13Rec() *c13Rec { return &c13Rec{seen: map[string]bool{}} }
+
+func (t *c13Rec) add(fn string, x, v float64) float64 {
+	key := " " + fn + " " + fb(x)
+	if !t.seen[key] {
+		t.seen[key] = true
+		t.n++
+		t.sb.WriteString(key + " " + fb(v))
+	}
+	return v
+}
+func (t *c13Rec) sin(x float64) float64  { return t.add("s", x, math.Sin(x)) }
+func (t *c13Rec) log(x float64) float64  { return t.add("l", x, math.Log(x)) }
+func (t *c13Rec) exp(x float64) float64  { return t.add("e", x, math.Exp(x)) }
+func (t *c13Rec) atan(x float64) float64 { return t.add("a", x, math.Atan(x)) }
+func (t *c13Rec) String() string         { return "T " + strconv.Itoa(t.n) + t.sb.String() }
+
+// mirror of maptile.Fraction (only its libm arguments matter)
+func (t *c13Rec) fraction(ll orb.Point, z maptile.Zoom) {
+	if ll[1] < -85.0511 || ll[1] > 85.0511 {
+		return
+	}
+	siny := t.sin(ll[1] * math.Pi / 180.0)
+	t.log((1.0 + siny) / (1.0 - siny))
+}
+
+// mirror of the latitude part of mercator.ToGeo
+func (t *c13Rec) toGeoLat(y float64, level uint32) {
+	maxtiles := float64(uint64(1 << level))
+	t.atan(t.exp(math.Pi - (2*math.Pi)*(y/maxtiles)))
+}
+
+// mirror of Tile.Bound
+func (t *c13Rec) bound(tile maptile.Tile, buffer float64) {
+	y := float64(tile.Y)
+	miny := y - buffer
+	if miny < 0 {
+		miny = 0
+	}
+	t.toGeoLat(miny, uint32(tile.Z))
+	maxtiles := float64(uint32(1 << tile.Z))
+	maxy := y + 1 + buffer
+	if maxy > maxtiles {
+		maxy = maxtiles
+	}
+	t.toGeoLat(maxy, uint32(tile.Z))
 }
 
 func runC13(op string, in []string) string {
@@ -65,17 +130,39 @@ func runC13(op string, in []string) string {
 			f := maptile.Fraction(ll, z)
 			t := maptile.At(ll, z)
 			b := t.Bound()
-			ct := maptile.At(t.Center(), z)
-			return fmt.Sprintf("%s %s %d %d %s %d %d", fb(f[0]), fb(f[1]), t.X, t.Y, sb4(b), ct.X, ct.Y)
+			c := t.Center()
+			cf := maptile.Fraction(c, z)
+			ct := maptile.At(c, z)
+			rec := newC13Rec()
+			rec.fraction(ll, z)
+			rec.bound(t, 0)
+			rec.fraction(c, z)
+			return fmt.Sprintf("%s %s %d %d %s %d %d %s %s %s %s %s", fb(f[0]), fb(f[1]), t.X, t.Y, sb4(b), ct.X, ct.Y,
+				fb(c[0]), fb(c[1]), fb(cf[0]), fb(cf[1]), rec)
 		case "nbr":
 			t := rdTile(r)
 			right := maptile.Tile{X: t.X + 1, Y: t.Y, Z: t.Z}
 			down := maptile.Tile{X: t.X, Y: t.Y + 1, Z: t.Z}
 			parts := []string{sb4(t.Bound()), sb4(right.Bound()), sb4(down.Bound())}
+			rec := newC13Rec()
+			rec.bound(t, 0)
+			rec.bound(right, 0)
+			rec.bound(down, 0)
 			for _, c := range t.Children() {
 				parts = append(parts, sb4(c.Bound()))
+				rec.bound(c, 0)
 			}
+			parts = append(parts, rec.String())
 			return strings.Join(parts, " ")
+		case "bnd": // Bound with an explicit tile buffer (the miny / maxy clamps)
+			t := rdTile(r)
+			buffer := r.f()
+			rec := newC13Rec()
+			rec.bound(t, buffer)
+			rec.bound(t, 0)
+			return sb4(t.Bound(buffer)) + " " + sb4(t.Bound()) + " " + rec.String()
+		case "consts": // the compile-time constants the Float twin uses
+			return strings.Join([]string{fb(math.Pi), fb(2 * math.Pi), fb(-2 * math.Pi), fb(180.0 / math.Pi), fb(85.0511), fb(-85.0511), fb(0.5)}, " ")
 		}
 		return "badop"
 	})
@@ -207,8 +294,29 @@ func genC13(c *Ctx) {
 		}
 		c.Case("at", fmt.Sprintf("%s %s %d", fb(lon), fb(lat), z))
 	}
+	// Bound with a tile buffer: the two clamps (miny < 0, maxy > maxtiles), negative and fractional buffers
+	for k := 0; k < c.Budget/8 && !c.Exhausted(); k++ {
+		z := rng.Intn(31)
+		n := uint64(1) << uint(z)
+		x := uint64(rng.Int63()) % n
+		var y uint64
+		switch rng.Intn(4) {
+		case 0:
+			y = uint64(rng.Intn(3)) % n
+		case 1:
+			y = n - 1 - uint64(rng.Intn(3))%n
+		default:
+			y = uint64(rng.Int63()) % n
+		}
+		buffer := []float64{0, 0.5, 1, 2, 0.25, 3, -0.25, 1e-3}[rng.Intn(8)]
+		if rng.Intn(3) == 0 {
+			buffer = rng.Float64() * 4
+		}
+		c.Case("bnd", fmt.Sprintf("%d %d %d %s", x, y, z, fb(buffer)))
+	}
 	// the antimeridian itself (lon = 180 is inside the property's quantifier)
 	if c.Shard == 0 {
+		c.Case("consts", "")
 		for z := 0; z <= 30; z++ {
 			c.Case("at", fmt.Sprintf("%s %s %d", fb(180), fb(0), z))
 			c.Case("at", fmt.Sprintf("%s %s %d", fb(180), fb(45.5), z))
